@@ -53,13 +53,13 @@ def stream_replays(pool, fn, jobs, rnd, cap, chunk=None):
     """Run replays with bounded memory: keep every drifted result, a reservoir sample of at most
     `cap` clean ones, and the results whose token accounting failed.  Returns
     (drifted, sample, bad_acct, n_clean)."""
-    drifted, sample, bad, n = [], [], [], 0
+    drifted, sample, bad, n, flagged = [], [], [], 0, []
     chunk = chunk or max(1, len(jobs) // 512)
     for r in pool.imap_unordered(fn, jobs, chunksize=chunk):
         if not r.get("acct_ok", True):
             bad.append({"path": r["path"], "cfg": r["cfg"]})
-        if r.get("drift"):
-            drifted.append(r)
+        if r.get("drift") or r.get("probes"):
+            (drifted if r.get("drift") else flagged).append(r)
             continue
         n += 1
         if len(sample) < cap:
@@ -68,4 +68,4 @@ def stream_replays(pool, fn, jobs, rnd, cap, chunk=None):
             j = rnd.randrange(n)
             if j < cap:
                 sample[j] = r
-    return drifted, sample, bad, n
+    return drifted, flagged + sample, bad, n
